@@ -4,7 +4,7 @@
     harness/vt/pytr.py) is equal, for all arguments, to the hand-written model of Model/OneHot.v that the
     C09 theorems are about. *)
 From Coq Require Import ZArith Bool Lia.
-From NS Require Import Gen.G09 Gen.Tr Model.OneHot.
+From NS Require Import Base.TrTac Gen.G09 Gen.Tr Model.OneHot.
 Local Open Scope Z_scope.
 
 Ltac consts := unfold vel_range, MAX_MIDI_VELOCITY, MIN_MIDI_VELOCITY, NUM_SPECIAL_MELODY_EVENTS,
@@ -24,8 +24,8 @@ Qed.
 Lemma tr_bin_size_eq nb : 0 < nb -> tr_velocity_bin_size nb = Some (bin_size nb).
 Proof.
   intros H. unfold tr_velocity_bin_size, bin_size. consts.
-  destruct (nb =? 0) eqn:E; [apply Z.eqb_eq in E; lia|]. f_equal.
-  apply ceil_forms. exact H.
+  first [ solve [ destruct (nb =? 0) eqn:E; [apply Z.eqb_eq in E; lia|]; f_equal; apply ceil_forms; exact H ]
+        | tr_solve ].
 Qed.
 
 Lemma tr_bin_size_zero : tr_velocity_bin_size 0 = None.
@@ -39,39 +39,42 @@ Qed.
 
 Lemma tr_velocity_to_bin_eq v nb : 0 < nb -> tr_velocity_to_bin v nb = Some (vel_to_bin v nb).
 Proof.
-  intros H. unfold tr_velocity_to_bin. rewrite (tr_bin_size_eq nb H).
+  intros H. unfold tr_velocity_to_bin. rewrite ?(tr_bin_size_eq nb H).
   pose proof (bin_size_pos nb H).
-  destruct (bin_size nb =? 0) eqn:E; [apply Z.eqb_eq in E; lia|].
-  unfold vel_to_bin. consts. reflexivity.
+  first [ solve [ destruct (bin_size nb =? 0) eqn:E; [apply Z.eqb_eq in E; lia|];
+                  unfold vel_to_bin; consts; reflexivity ]
+        | unfold vel_to_bin; consts; generalize dependent (bin_size nb); intros bs Hbs; tr_solve ].
 Qed.
 
 Lemma tr_velocity_bin_to_velocity_eq b nb : 0 < nb ->
   tr_velocity_bin_to_velocity b nb = Some (bin_to_vel b nb).
 Proof.
-  intros H. unfold tr_velocity_bin_to_velocity. rewrite (tr_bin_size_eq nb H).
-  unfold bin_to_vel. consts. reflexivity.
+  intros H. unfold tr_velocity_bin_to_velocity. rewrite ?(tr_bin_size_eq nb H).
+  first [ solve [ unfold bin_to_vel; consts; reflexivity ]
+        | unfold bin_to_vel; consts; generalize dependent (bin_size nb); intros bs; tr_solve ].
 Qed.
 
 Lemma tr_melody_init_eq mn mx :
   tr_melody_init mn mx = if mel_cfg_ok mn mx then Some tt else None.
 Proof.
   unfold tr_melody_init, mel_cfg_ok. consts.
-  destruct (mn <? 0) eqn:A, (mx >? 127 + 1) eqn:B, (mx <=? mn) eqn:C,
-           (0 <=? mn) eqn:A', (mx <=? 127 + 1) eqn:B', (mn <? mx) eqn:C'; cbn; try reflexivity; lia.
+  first [ solve [ destruct (mn <? 0) eqn:A, (mx >? 127 + 1) eqn:B, (mx <=? mn) eqn:C,
+                           (0 <=? mn) eqn:A', (mx <=? 127 + 1) eqn:B', (mn <? mx) eqn:C'; cbn; try reflexivity; lia ]
+        | tr_solve ].
 Qed.
 
 Lemma tr_melody_num_classes_eq mn mx : tr_melody_num_classes mx mn = Some (mel_num_classes mn mx).
-Proof. unfold tr_melody_num_classes, mel_num_classes. consts. reflexivity. Qed.
+Proof. unfold tr_melody_num_classes, mel_num_classes. consts. first [ reflexivity | tr_solve ]. Qed.
 
 Lemma tr_melody_encode_eq mn mx e : tr_melody_encode_event mx mn e = mel_encode mn mx e.
 Proof.
   unfold tr_melody_encode_event, mel_encode. consts.
-  replace (e >=? mx) with (mx <=? e) by (rewrite Z.geb_leb; reflexivity).
-  reflexivity.
+  first [ solve [ replace (e >=? mx) with (mx <=? e) by (rewrite Z.geb_leb; reflexivity); reflexivity ]
+        | tr_solve ].
 Qed.
 
 Lemma tr_melody_decode_eq mn i : tr_melody_decode_event mn i = Some (mel_decode mn i).
 Proof.
   unfold tr_melody_decode_event, mel_decode. consts.
-  destruct (i <? 2); reflexivity.
+  first [ solve [ destruct (i <? 2); reflexivity ] | tr_solve ].
 Qed.
